@@ -3,7 +3,7 @@ import Got.Model.Discipline
 import Got.Model.DisciplineSites
 /-
 drv_discipline:
-  sites            input lines `field func kind L|- after1,after2|-`  → `ok <role>` / `reject <why>`
+  sites            input lines `field func kind L|- after1,after2|- then1,then2|-`  → `ok <role>` / `reject <why>`
   trace            input lines `rd t | wr t | rel t a | acq t a ...` separated by ';' → `accept` / `reject`
                    (runs the executable discipline monitor on an event trace; used for the corpus of old shapes)
 -/
@@ -15,6 +15,10 @@ def siteStep (_ : Unit) (line : String) : Unit × String :=
   | [field, func, kind, l, after] =>
     let aft := if after = "-" then [] else after.splitOn ","
     ((), matchSite field func kind (l = "L") aft)
+  | [field, func, kind, l, after, thn] =>
+    let aft := if after = "-" then [] else after.splitOn ","
+    let th := if thn = "-" then [] else thn.splitOn ","
+    ((), matchSite field func kind (l = "L") aft th)
   | [] => ((), "")
   | _ => ((), "reject malformed-line")
 
